@@ -33,6 +33,7 @@ RUN = 6
 
 
 VAL_MODE = 'scalar'
+Y_STORE = 'env'       # 'global': variable y lives next to the clock
 
 
 def val(i):
@@ -77,7 +78,8 @@ def build_timeline(events):
         elif ev[1] is None:
             dicts.append({})          # an empty event (a time marker)
         else:
-            dicts.append({('env', ev[1]): val(i)})
+            dicts.append({((Y_STORE if ev[1] == 'y' else 'env'),
+                           ev[1]): val(i)})
     return [(ev[0], d) for ev, d in zip(events, dicts)]
 
 
@@ -103,6 +105,10 @@ def run_case(events, ts, via, run=None, clock_rows=False):
         'update': {}})
     processes = {'holder': holder}
     topology = {'holder': {'env': ('env',)}}
+    if Y_STORE == 'global':
+        # y is kept in the store that also holds the timeline's clock
+        topology['holder'] = {'env': {'_path': ('env',),
+                                      'y': ('..', 'global', 'y')}}
     if via == 'add_timeline':
         add_timeline(processes, topology,
                      {'timeline': timeline, 'time_step': ts})
@@ -110,6 +116,10 @@ def run_case(events, ts, via, run=None, clock_rows=False):
         processes['timeline'] = TimelineProcess(
             {'timeline': timeline, 'time_step': ts})
         topology['timeline'] = {'global': ('global',), 'env': ('env',)}
+        if Y_STORE == 'global' and not any(
+                k[0] == 'env' for _, d in timeline for k in d):
+            # no event drives the env port: the process does not have it
+            del topology['timeline']['env']
     eng = probes.MonitoredEngine(
         processes=processes, topology=topology,
         emitter={'type': 'vmc_probe'}, display_info=False)
@@ -134,7 +144,9 @@ def run_case(events, ts, via, run=None, clock_rows=False):
     for r in eng.emitter.records:
         if r['table'] == 'history':
             env = r['snapshot'].get('env', {})
-            rows[r['data']['time']] = {'x': env.get('x'), 'y': env.get('y')}
+            rows[r['data']['time']] = {
+                'x': env.get('x'),
+                'y': r['snapshot'].get(Y_STORE, {}).get('y')}
     now = [(t, dict(d)) for t, d in timeline]
     if now != given:
         rows['_mutated'] = (given, now)
@@ -142,7 +154,8 @@ def run_case(events, ts, via, run=None, clock_rows=False):
 
 
 def check(events, ts, via, acc):
-    case = {'events': [list(e) for e in events], 'ts': ts, 'via': via}
+    case = {'events': [list(e) for e in events], 'ts': ts,
+            'via': ('global:' if Y_STORE == 'global' else '') + via}
     V = lambda rule, fp, msg: acc.violate(  # noqa
         fw.violation(rule, fp, msg, case))
     try:
@@ -184,6 +197,18 @@ def check(events, ts, via, acc):
               f'ts={ts} via={via} events={events}: at t={T} env={rows[T]}, '
               f'reference {ref[T]} (events never seen: {missing})')
             return rows
+    return rows
+
+
+def check_global(events, ts, via, acc):
+    """Variable y lives in the 'global' store, next to the timeline's
+    clock: events that set it are applied like any other."""
+    global Y_STORE
+    Y_STORE = 'global'
+    try:
+        rows = check(events, ts, via, acc)
+    finally:
+        Y_STORE = 'env'
     return rows
 
 
@@ -412,6 +437,13 @@ def run_job(job, acc):
             acc.case(key=('float', job[1], ts), outcome='float',
                      nontrivial=True)
         return
+    if job[0] == 'global':
+        for ts, via in itertools.product((1, 2, 3),
+                                         ('direct', 'add_timeline')):
+            check_global(job[1], ts, via, acc)
+            acc.case(key=('global', job[1], ts, via), outcome='global',
+                     nontrivial=len(job[1]) >= 2)
+        return
     if job[0] == 'container':
         for ts, mode in itertools.product((1, 2, 3), ('list', 'dict')):
             check_container(job[1], ts, mode, acc)
@@ -436,6 +468,8 @@ def run(ctx):
     return ctx.map(run_job, [(e,) for e in event_lists(ctx)] +
                    [('container', e) for e in event_lists(ctx)
                     if len(e) <= 3] +
+                   [('global', e) for e in event_lists(ctx)
+                    if len(e) <= 3 and any(ev[1] == 'y' for ev in e)] +
                    [('float', e) for e in float_event_lists(ctx)] +
                    [('scripted', e) for e in scripted_event_lists(ctx)])
 
@@ -445,6 +479,9 @@ def replay(case):
     if str(case['via']).startswith('script'):
         check_scripted(tuple(tuple(e) for e in case['events']), case['ts'],
                        int(case['via'][6:]), acc)
+    elif str(case['via']).startswith('global:'):
+        check_global(tuple(tuple(e) for e in case['events']), case['ts'],
+                     case['via'].split(':')[1], acc)
     elif str(case['via']).startswith('container:'):
         check_container(tuple(tuple(e) for e in case['events']), case['ts'],
                         case['via'].split(':')[1], acc)
@@ -462,3 +499,6 @@ RULE += (
 
 RULE += (
     " Scripted runs (sequences of update()/run_for(.., force_complete) calls with run lengths that cut a tick): after every call the timeline clock equals the engine time reached by the timeline process and every due event has fired exactly once. Empty events (time markers) between non-empty ones delay nothing. Container-valued events (one-element lists, one-key dictionaries): the last due event's value is what the variable holds, values of several events due in one tick are never combined, the values handed in are never modified.")
+
+RULE += (
+    ' Global mode: variable y is kept in the store that holds the timeline clock (events name it as (global, y)); event lists of length <= 3 that set y, timesteps 1-3, wired directly and through add_timeline.')
